@@ -3,7 +3,9 @@ package c19
 import (
 	"fmt"
 	"net/url"
+	"runtime"
 	"strings"
+	"sync"
 
 	"github.com/PapaCharlie/go-restli/v2/d2"
 	"verif/harness/hx"
@@ -112,7 +114,24 @@ func foldCase(cfg Config, r *hx.Result, zk string, h []event, everyPrefix bool) 
 }
 
 // the exhaustive alphabet: 3 nodes x {add, update, delete, malformed, weight-less}
+var (
+	alphabetMu   sync.Mutex
+	alphabetMemo = map[int][]event{}
+)
+
 func alphabet(zk string, variant int) []event {
+	key := variant % (3 * len(malformedPayloads) * len(weightlessPayloads))
+	alphabetMu.Lock()
+	defer alphabetMu.Unlock()
+	if a, ok := alphabetMemo[key]; ok {
+		return a
+	}
+	a := alphabet0(zk, key)
+	alphabetMemo[key] = a
+	return a
+}
+
+func alphabet0(zk string, variant int) []event {
 	var out []event
 	for i, n := range []string{"/n1", "/n2", "/n3"} {
 		add := []entry{{fmt.Sprintf("http://h%d:80", i+1), 4}, {fmt.Sprintf("https://h%d:443", i+1), 2}}
@@ -139,45 +158,163 @@ type dfs struct {
 	maxDepth int
 	variant  int
 	nodes    int
+	askMu    *sync.Mutex
+	distinct []string
 }
 
-func (x *dfs) walk(anc []frame, hist []event) {
-	if len(hist) >= x.maxDepth {
+// exhaustive walks the whole event tree. The first two levels are walked by the caller; the 225
+// subtrees below them are independent and are walked by a few workers (each with its own client
+// and result record, merged afterwards in subtree order, so the outcome does not depend on
+// scheduling). The single model driver is shared under a mutex.
+func exhaustive(cfg Config, r *hx.Result, zk string, depth int) int {
+	root := frame{handle: d2.VerifNewUris(cluster)}
+	root.rec = root.handle.Contents()
+	root.canon = canonContents(root.rec)
+	variant := int(cfg.Seed % 1000)
+	var askMu sync.Mutex
+	top := &dfs{cfg: cfg, r: r, c: new(d2.Client), zk: zk, maxDepth: depth, variant: variant, askMu: &askMu}
+	frontier := top.walkOnce([]frame{root}, nil)
+	nodes := top.nodes
+	if len(frontier) == 0 {
+		return nodes
+	}
+	workers := runtime.NumCPU() / 2
+	if workers > 8 {
+		workers = 8
+	}
+	if workers < 1 {
+		workers = 1
+	}
+	subs := make([]*dfs, len(frontier))
+	jobs := make(chan int)
+	var wg sync.WaitGroup
+	for w := 0; w < workers; w++ {
+		wg.Add(1)
+		go func() {
+			defer wg.Done()
+			for i := range jobs {
+				x := &dfs{cfg: cfg, r: hx.NewResult("C19", cfg.Module, cfg.Seed, cfg.Tier), c: new(d2.Client), zk: zk,
+					maxDepth: depth, variant: variant, askMu: &askMu}
+				x.walk(frontier[i].anc, frontier[i].hist)
+				subs[i] = x
+			}
+		}()
+	}
+	for i := range frontier {
+		jobs <- i
+	}
+	close(jobs)
+	wg.Wait()
+	for _, x := range subs {
+		nodes += x.nodes
+		r.Ops += x.r.Ops
+		r.OracleCases += x.r.OracleCases
+		for k, v := range x.r.Dist {
+			if k != "D-failures" && k != "K-disagreements" {
+				r.Dist[k] += v
+			}
+		}
+		for _, c := range x.r.OracleFailures {
+			r.OracleFail(c)
+		}
+		for _, c := range x.r.Disagreements {
+			r.Disagree(c)
+		}
+		for _, d := range x.distinct {
+			r.Distinctive(d)
+		}
+	}
+	return nodes
+}
+
+type visited struct {
+	anc  []frame // snapshots on the path, this node's own last
+	hist []event
+}
+
+// chunk explores `levels` levels below (anc, hist) with the real code, in depth-first pre-order,
+// collecting the implementation's canonical answers and the frontier nodes.
+func (x *dfs) chunk(anc []frame, hist []event, levels int, impl *[]visited, frontier *[]visited) {
+	if levels == 0 {
+		*frontier = append(*frontier, visited{anc, hist})
 		return
 	}
 	// payload variants rotate with the depth so that every JSON shape is met in every position
-	alpha := alphabet(x.zk, x.variant+len(hist))
+	for _, e := range alphabet(x.zk, x.variant+len(hist)) {
+		h2 := append(hist[:len(hist):len(hist)], e)
+		f, ok := step(x.r, x.c, x.zk, anc, h2)
+		if !ok {
+			// keep the pre-order aligned with the model's answer list
+			f = frame{handle: anc[len(anc)-1].handle, canon: "<panic>"}
+		}
+		x.nodes++
+		x.r.Dist["exhaustive-event:"+e.variant]++
+		a2 := append(anc[:len(anc):len(anc)], f)
+		*impl = append(*impl, visited{a2, h2})
+		if len(h2) == x.maxDepth && x.nodes%4099 == 0 && isNonTrivial(h2) {
+			x.distinct = append(x.distinct, foldOp(x.zk, h2))
+			x.r.Distinctive(foldOp(x.zk, h2))
+		}
+		if ok {
+			x.chunk(a2, h2, levels-1, impl, frontier)
+		}
+	}
+}
+
+// walk: two levels at a time; the model expands the same two levels in one op while the real code
+// is being run.
+func (x *dfs) walk(anc []frame, hist []event) {
+	for _, v := range x.walkOnce(anc, hist) {
+		x.walk(v.anc, v.hist)
+	}
+}
+
+// walkOnce explores (at most) two levels below the node and returns the frontier.
+func (x *dfs) walkOnce(anc []frame, hist []event) []visited {
+	levels := x.maxDepth - len(hist)
+	if levels <= 0 {
+		return nil
+	}
+	if levels > 2 {
+		levels = 2
+	}
 	var answers []string
+	var done chan struct{}
+	var op string
 	if x.cfg.Driver != nil {
+		// the extension alphabet as the model sees it (classes only; the same at every depth)
+		alpha := alphabet(x.zk, 0)
 		exts := make([]string, len(alpha))
 		for i, e := range alpha {
 			exts[i] = e.sexp()
 		}
-		op := foldOp(x.zk, hist) + " (" + strings.Join(exts, " ") + ")"
-		x.r.Ops += len(alpha)
-		answers = strings.Split(x.cfg.Driver.MustAsk(op), " | ")
-		if len(answers) != len(alpha)+1 {
-			x.r.Disagree(hx.Case{Sig: "C19 d2fold", Op: op, Impl: "<16 answers expected>", Model: strings.Join(answers, " | ")})
-			answers = nil
-		}
+		op = fmt.Sprintf("%s (%s) %d", foldOp(x.zk, hist), strings.Join(exts, " "), levels)
+		done = make(chan struct{})
+		go func() {
+			x.askMu.Lock()
+			a := x.cfg.Driver.MustAsk(op)
+			x.askMu.Unlock()
+			answers = strings.Split(a, " | ")
+			close(done)
+		}()
 	}
-	for i, e := range alpha {
-		h2 := append(hist[:len(hist):len(hist)], e)
-		f, ok := step(x.r, x.c, x.zk, anc, h2)
-		if !ok {
-			continue
-		}
-		x.nodes++
-		if answers != nil {
-			if impl := f.trace + " " + f.canon; answers[i+1] != impl {
-				x.r.Disagree(hx.Case{Sig: "C19 d2fold", Op: foldOp(x.zk, h2), Impl: impl, Model: answers[i+1]})
+	var impl, frontier []visited
+	x.chunk(anc, hist, levels, &impl, &frontier)
+	if done != nil {
+		<-done
+		x.r.Ops += len(impl)
+		if len(answers) != len(impl)+1 {
+			x.r.Disagree(hx.Case{Sig: "C19 d2fold", Op: op, Impl: fmt.Sprintf("<%d answers expected>", len(impl)+1), Model: fmt.Sprintf("<%d answers>", len(answers))})
+		} else {
+			for i, v := range impl {
+				f := v.anc[len(v.anc)-1]
+				if got := f.trace + " " + f.canon; answers[i+1] != got {
+					x.r.Disagree(hx.Case{Sig: "C19 d2fold", Op: foldOp(x.zk, v.hist), Impl: got, Model: answers[i+1]})
+				}
 			}
 		}
-		if len(h2) == x.maxDepth && isNonTrivial(h2) && x.nodes%4099 == 0 {
-			x.r.Distinctive(foldOp(x.zk, h2))
-		}
-		x.walk(append(anc[:len(anc):len(anc)], f), h2)
 	}
+	return frontier
 }
 
 func runFold(cfg Config, r *hx.Result) {
@@ -227,14 +364,10 @@ func runFold(cfg Config, r *hx.Result) {
 	if cfg.Tier == "thorough" {
 		depth = 6
 	}
-	x := &dfs{cfg: cfg, r: r, c: new(d2.Client), zk: zk, maxDepth: depth, variant: int(cfg.Seed % 1000)}
-	root := frame{handle: d2.VerifNewUris(cluster)}
-	root.rec = root.handle.Contents()
-	root.canon = canonContents(root.rec)
-	x.walk([]frame{root}, nil)
+	nodes := exhaustive(cfg, r, zk, depth)
 	r.Count(fmt.Sprintf("fold:exhaustive-depth=%d", depth))
-	r.Dist["fold:exhaustive-histories"] += x.nodes
-	r.Distinctive(fmt.Sprintf("d2fold <all %d histories of length <= %d over 15 events>", x.nodes, depth))
+	r.Dist["fold:exhaustive-histories"] += nodes
+	r.Distinctive(fmt.Sprintf("d2fold <all %d histories of length <= %d over 15 events>", nodes, depth))
 
 	// ---- seeded longer histories, delivered through waitForUriUpdates (Load / handle / Store)
 	rng := hx.Rng(cfg.Seed, "c19-fold")
